@@ -31,7 +31,9 @@ def build_plan(pid, job, model, k, root_map_items=None):
             t["kids"] = [len(frames)]
             open_frame[c["path"]] = len(frames)
         elif kind == "map":
-            n_items = c.get("items", 0)
+            prefix = c["path"] + "["
+            idxs = {a["frame"][len(prefix):].split("]")[0] for a in model["allcalls"] if a["frame"].startswith(prefix)}
+            n_items = len(idxs)
             for it in range(n_items):
                 frames.append({"ptask": tid, "nsteps": 0, "item": it + 1, "path": f"{c['path']}[{it}]"})
                 t["kids"].append(len(frames))
